@@ -85,6 +85,12 @@ CHECKS = {
    note="Trusted: TLC, the driver's field-by-field comparison (empty and absent containers are treated alike). Command-line flags, legacy INI conversion and third-party parser fidelity beyond the generated documents are not covered.",
    technique="TLA+ spec ConfigFlow as case-space + oracle; generated configurations replayed on the real config pipeline, judged by TLC (Trace_ConfigFlow)",
    design="4 (C18), 3.11"),
+ "C10": dict(
+   level="model_checking",
+   text="FrpsLifecycle models a proxy as an ordered list of server resources acquired step by step with roll-back on the first conflict and release on termination; TLC exhaustively explores 5 colliding proxy definitions (port, route, name conflicts) with all interleavings of registration, partial failure and termination (2.5M states) against HeldEqualsLive, LiveHoldsAll, ReRegistrationPossible, OthersUntouched; a real frps is cycled through 15 definitions of every proxy type, all four termination paths and immediate identical re-registrations, and TLC checks after every step that the resource tables read through the inspectors equal exactly the resources of the live proxies, that a registration is refused iff something it needs is held by a live proxy, and that the goroutine / descriptor footprint does not grow over cycles (Trace_FrpsLifecycle); the port / quota pipeline with every rollback point is validated against FrpsPorts.",
+   note="Trusted: TLC, the verif-only inspectors. Crash points are the steps of the registration pipeline (driven through conflicts and gates), not arbitrary instruction boundaries; closing of wrapped transports under traffic is checked by C01.",
+   technique="TLA+ specs FrpsLifecycle / FrpsPorts model-checked with TLC + trace validation of real frps executions (Trace_FrpsLifecycle, Trace_FrpsPorts)",
+   design="4 (C10), 3.1-3.4"),
 }
 
 hooks_commits = subprocess.run("git -C /repo log --format=%h --grep='^verif:' --reverse", shell=True, capture_output=True, text=True).stdout.split()
